@@ -16,12 +16,23 @@ RULE = ('cases are assigned round-robin by index to (object kind, encoding dm|js
         'choice, call form); numbers inside a class are random.  A case is non-trivial when it carries at least one '
         'non-zero value stored with a unit or a shape entry; distinct = fingerprint of the generated values + class.  '
         'Cross-configuration cases write under one working-unit configuration and read under another '
-        '(default, SI, 4 named choices, random numericalunits seeds).')
+        '(default, SI, 4 named choices, random numericalunits seeds).  Round 4: group "types" = systems whose declared atom types '
+        '(symbols / masses lists) are a stratified function of the index - all populated, one or two trailing types without atoms, a middle '
+        'type without atoms, masses or symbols shorter than the type list, duplicate symbols, unnamed trailing type - crossed with the '
+        'construction path (constructor, setters, atoms_ix selection, deepcopy, a system itself read from a model), the input form (lists, '
+        'tuples, float32, integer positions, narrow integer dtypes) and the route (model, dump return/path/file object with format case and '
+        'indent, record with key and index, Box/Atoms read from the system model); group "history" = two writes/reads in a row per entry '
+        'point (same object edited in place, other instance with the same argument objects, default instance after a customised one, an '
+        'existing object set from a model a second time) with everything kept from the first re-judged afterwards; group "forms" = the forms '
+        'a bare value is handed to uc.model in.')
 ASSUMPTIONS = ['quantities written with unit=None are exempt from the working-unit independence clause (as the property says)',
                'strings are alphabetic tags (XML cannot distinguish the text "1" from the number 1)',
                'file-like objects handed to the reader are binary (DataModelDict, a third-party package, refuses text-mode streams)',
                'explicit-unit SI values in vf/oracle/c10_units.py are correct to 5e-9 relative',
-               'empty arrays and NaN/inf are not generated']
+               'empty arrays and NaN/inf are not generated (a System cannot hold zero atoms; XML has no representation of an empty list)',
+               'half-precision values are handed over without a unit only (numpy converts float16 / Python float in float16, which overflows)',
+               'masses survive the text to 4 ulp; positions and cell to 64 eps x (cell size + |origin|), times cond(cell) when box-scaled',
+               'ElasticConstants terms below 2e-9 of the largest are exempt (the class zeroes terms below 1e-9 of the largest)']
 
 ENCS = ('dm', 'json', 'xml')
 DEFAULT_CFG = dict(length='angstrom', mass='amu', energy='eV', charge='e')
@@ -154,7 +165,12 @@ def run_values(ctx, am, uc, DM):
                 rec.count('values:non-contiguous')
         with_unit = dtype == 'float' and (i // 105) % 2 == 0
         dim = dims[i % len(dims)]
-        unit = U.names(dim)[int(rng.integers(0, len(U.names(dim))))] if with_unit else None
+        unames = U.names(dim)
+        if dim in ('impulse', 'stiffness'):
+            # only the expressions with two or more operators here (the one-operator ones are used in the cross-configuration group):
+            # makes the floor on compound units in the text observer reachable whatever the seed
+            unames = [u for u in unames if u.count('/') + u.count('*') >= 2]
+        unit = unames[int(rng.integers(0, len(unames)))] if with_unit else None
         with_error = dtype == 'float' and (i % 4 == 1)
         err = np.abs(np.asarray(v)) * 0.01 if with_error else None
         sc = f'{shape_class}:{enc}'
@@ -653,6 +669,883 @@ def run_xconfig(ctx, am, uc, DM):
     rec.floor('monitor:xconfig-text-compound', 5)
 
 
+# ------------------------------------------------------------------ round 4: declared atom types, construction paths, input forms
+EPS = float(np.finfo(float).eps)
+EPS32 = float(np.finfo(np.float32).eps)
+
+
+def masses_equal(got, exp, ulps=4):
+    """None matches None; numbers agree to a few units in the last place (text round trip of a double is exact)."""
+    return len(got) == len(exp) and all((a is None and b is None) or (a is not None and b is not None and abs(a - b) <= ulps * EPS * abs(b))
+                                        for a, b in zip(got, exp))
+
+
+def judge_content(rec, s2, T, key, what):
+    """System content that does not live in the per-atom table: number of declared types, symbols, masses."""
+    rec.check(s2.natypes == T['natypes'], what + ': number of atom types', key + ':natypes', got=s2.natypes, expected=T['natypes'],
+              typeclass=T['typeclass'])
+    rec.check(tuple(s2.atypes) == tuple(range(1, T['natypes'] + 1)), what + ': atom type list', key + ':atypes', got=s2.atypes)
+    rec.check(tuple(s2.symbols) == tuple(T['symbols']), what + ': symbols', key + ':symbols', got=s2.symbols, expected=T['symbols'],
+              typeclass=T['typeclass'])
+    rec.check(masses_equal(tuple(s2.masses), tuple(T['masses'])), what + ': masses', key + ':masses', got=tuple(s2.masses),
+              expected=T['masses'], typeclass=T['typeclass'])
+
+
+POSFORMS = ['float64', 'list', 'float32', 'int']
+SOURCES = ['direct', 'setters', 'sliced', 'deepcopy', 'reread']
+ROUTES = ['model', 'dump-return', 'dump-path', 'dump-fileobj', 'record-index', 'sub-objects']
+NARROW = ['int8', 'uint8', 'int16', 'uint16', 'int32', 'uint64']
+
+
+def build_typed_system(rng, am, i, S):
+    """A system whose declared atom types are a stratified function of i (vf/gen/c10_systems.py), built along one of
+    several construction paths.  Returns (system, T) with T the ground truth (content + arrays)."""
+    import copy
+    natoms = [1, 2, 3, 5, 8][(i // 2) % 5]
+    T = S.gen_types(rng, i, natoms)
+    kind = cells.KINDS[i % len(cells.KINDS)]
+    cell = cells.gen_cell(rng, kind, cells.ORIGINS[(i // 9) % 3], 1.0)
+    posform = POSFORMS[(i // 3) % len(POSFORMS)]
+    rel = rng.uniform(-0.3, 1.3, (natoms, 3))
+    if (i // 4) % 3 == 0:
+        rel[0] = [0.0, 1.0, 0.0]                                   # an atom exactly on the cell edges
+    vects, origin = cell['vects'], cell['origin']
+    boxform = ['array', 'list', 'float32'][(i // 5) % 3]
+    if boxform == 'float32':
+        vects, origin = vects.astype(np.float32).astype(float), origin.astype(np.float32).astype(float)
+    pos = rel @ vects + origin
+    if posform == 'int':
+        pos = np.rint(pos)
+    elif posform == 'float32':
+        pos = pos.astype(np.float32).astype(float)
+    if posform in ('int', 'float32'):
+        rel = np.linalg.solve(vects.T, (pos - origin).T).T
+    given_pos = {'float64': pos.copy(), 'list': pos.tolist(), 'float32': pos.astype(np.float32), 'int': pos.astype(int)}[posform]
+    # a property set that differs from case to case (names, dtypes, ranks)
+    bits = (i // 3) % 8
+    props = {}
+    if bits & 1:
+        props['charge'] = rng.normal(size=natoms)
+    if bits & 2:
+        props['ival'] = rng.integers(0, 100, natoms).astype(NARROW[(i // 7) % len(NARROW)])
+    if bits & 4:
+        props['vel'] = rng.normal(size=(natoms, 3))
+    if bits == 0 or bits == 7:
+        props['w32'] = rng.normal(size=(natoms, 2)).astype(np.float32)
+    props[f'extra{i % 4}'] = rng.normal(size=natoms) * 10.0 ** int(rng.integers(-6, 7))
+    props['tag'] = np.array([f'{c}q{c}' for c in rng.choice(list('abcdefgh'), natoms)])
+    pbc = cells.PBCS[(i // 2) % 8]
+    given_pbc = [tuple(pbc), list(pbc), np.array(pbc, dtype=bool)][(i // 11) % 3]
+    atype_given = [T['atype'].copy(), T['atype'].tolist(), T['atype'].astype('int8'), T['atype'].astype('uint64')][(i // 13) % 4]
+    given_vects = vects.tolist() if boxform == 'list' else vects.astype(np.float32) if boxform == 'float32' else vects.copy()
+    given_origin = origin.tolist() if boxform == 'list' else origin.astype(np.float32) if boxform == 'float32' else origin.copy()
+    source = SOURCES[(i // 8) % len(SOURCES)]
+    gs, gm = S.hand_over(T['given_symbols'], T['form']), S.hand_over(T['given_masses'], T['form'])
+    truth = dict(T)
+    truth.update(vects=vects.copy(), origin=origin.copy(), pos=pos.copy(), rel=rel, props={k: np.array(v, copy=True) for k, v in props.items()},
+                 pbc=tuple(pbc), natoms=natoms, kind=kind, L=cell['L'], posform=posform, source=source, boxform=boxform)
+    box = am.Box(vects=given_vects, origin=given_origin)
+    if source == 'sliced':
+        # two more atoms of one further type; taking them out again leaves that type declared but unpopulated
+        k = T['natypes'] + 1
+        atype_big = np.concatenate([T['atype'], [k, k]])
+        pos_big = np.vstack([pos, rng.uniform(0, 1, (2, 3)) @ vects + origin])
+        props_big = {}
+        for name, v in props.items():
+            pad = np.zeros((2,) + v.shape[1:], dtype=v.dtype) if v.dtype.kind != 'U' else np.array(['zz', 'zz'])
+            props_big[name] = np.concatenate([v, pad])
+        big = am.System(atoms=am.Atoms(atype=atype_big, pos=pos_big, **props_big), box=box, pbc=given_pbc,
+                        symbols=list(T['symbols']) + ['Zr'])
+        system = big.atoms_ix[np.arange(natoms)] if i % 2 else big.atoms_ix[big.atoms.atype < k]
+        mlast = float(rng.uniform(1, 200))
+        system.masses = list(T['masses']) + [mlast]
+        truth.update(symbols=tuple(T['symbols']) + ('Zr',), masses=tuple(T['masses']) + (mlast,), natypes=k, trailing=T['trailing'] + 1)
+        return system, truth
+    atoms = am.Atoms(atype=atype_given, pos=given_pos, **props)
+    if source == 'setters':
+        system = am.System(atoms=atoms, box=box, pbc=given_pbc)
+        if gs is not None:
+            system.symbols = gs
+        if gm is not None:
+            system.masses = gm
+    else:
+        system = am.System(atoms=atoms, box=box, pbc=given_pbc, symbols=gs, masses=gm)
+    if source == 'deepcopy':
+        system = copy.deepcopy(system)
+    elif source == 'reread':
+        system = am.System(model=system.model())                   # second generation: a system that was itself read from a model
+    return system, truth
+
+
+def judge_typed(rec, s2, T, key, carried, pu, what, scaled_only_pos=True):
+    """s2 reproduces T: content, cell, flags and every carried per-atom property."""
+    judge_content(rec, s2, T, key, what)
+    span = T['L'] + np.abs(T['origin']).max()
+    rec.close(64 * EPS * span, s2.box.vects, T['vects'], what + ': cell vectors', key + ':vects')
+    rec.close(64 * EPS * span, s2.box.origin, T['origin'], what + ': origin', key + ':origin')
+    rec.check(s2.natoms == T['natoms'], what + ': atom count', key + ':natoms', got=s2.natoms)
+    rec.check(bool(np.array_equal(np.asarray(s2.pbc, bool), np.asarray(T['pbc'], bool))), what + ': periodic flags', key + ':pbc',
+              got=s2.pbc, expected=T['pbc'])
+    rec.check(list(s2.atoms.prop()) == list(carried), what + ': exactly the carried properties, in order', key + ':propnames',
+              got=s2.atoms.prop(), expected=list(carried))
+    # positions: a unit conversion costs a few ulp of the coordinate; the box-relative form costs cond(cell) ulp of the span
+    e = EPS32 if T['posform'] == 'float32' and pu.get('pos') != 'scaled' else EPS
+    cond = float(np.linalg.cond(T['vects']))
+    tolpos = 64 * e * span * (cond if pu.get('pos') == 'scaled' else 1.0)
+    for p in carried:
+        if p not in s2.atoms.prop():
+            continue
+        if p == 'pos':
+            if rec.check(s2.atoms.pos.shape == T['pos'].shape, what + ': pos shape', key + ':pos:shape'):
+                rec.close(tolpos, s2.atoms.pos, T['pos'], what + ': positions', key + ':pos:' + ('scaled' if pu.get('pos') == 'scaled' else 'unit'))
+                rec.check(s2.atoms.pos.dtype.kind == 'f', what + ': positions are floats', key + ':pos:dtype', got=str(s2.atoms.pos.dtype))
+        elif p == 'atype':
+            same(rec, s2.atoms.atype, T['atype'], what + ': property atype', key + ':prop:atype', rtol=0.0)
+        else:
+            exp = T['props'][p]
+            if pu.get(p) == 'scaled':
+                rec.close(64 * EPS * span * cond, s2.atoms.view[p], exp, what + f': box-scaled property {p}', key + f':prop:{p}:scaled')
+                continue
+            rt = 8 * (EPS32 if exp.dtype == np.float32 and pu.get(p) else EPS)
+            same(rec, s2.atoms.view[p], exp, what + f': property {p}', key + f':prop:{p[:5]}', rtol=rt)
+
+
+def run_types(ctx, am, uc, DM):
+    """Systems that declare more atom types than they populate (and the neighbouring classes), every construction path,
+    every way of handing the model on."""
+    from ..gen import c10_systems as S
+    rec = ctx.rec
+    n = ctx.pick(336, 6720)
+    tmpdir = tempfile.mkdtemp(prefix='vf-c10t-')
+    try:
+        for i in ctx.cases('types', n):
+            rng = ctx.rng
+            enc = ENCS[i % 3]
+            route = ROUTES[(i // 24) % len(ROUTES)]
+            system, T = None, None
+            with ctx.guard('a system with declared atom types is built', 'types:build'):
+                system, T = build_typed_system(rng, am, i, S)
+            if system is None:
+                continue
+            carried = list(system.atoms.prop())
+            pu = {p: None for p in carried}
+            form = ['default', 'prop_unit', 'prop_name+unit'][(i // 2) % 3]
+            if form != 'default':
+                pu['pos'] = ['angstrom', 'nm', 'scaled', None][(i // 3) % 4]
+                if 'charge' in pu:
+                    pu['charge'] = ['e', 'C'][(i // 5) % 2]
+                if 'vel' in pu and (i // 7) % 2:
+                    pu['vel'] = 'scaled'
+                if 'w32' in pu:
+                    pu['w32'] = [None, 'GPa'][(i // 5) % 2]
+            kw = {} if form == 'default' else dict(prop_unit=dict(pu)) if form == 'prop_unit' else dict(prop_name=list(carried), unit=[pu[p] for p in carried])
+            box_unit = [None, 'nm', 'angstrom', 'm', 'pm'][(i // 4) % 5]
+            sig = ('types', T['typeclass'], T['source'], route, enc, form, T['symclass'], T['massclass'], T['natoms'])
+            rec.case(sig, nontrivial=True, fp=fingerprint(T['vects'], T['pos'], T['atype'], sig))
+            if i < 16:
+                rec.sample(dict(typeclass=T['typeclass'], source=T['source'], route=route, enc=enc, atype=T['atype'], symbols=T['symbols'],
+                                masses=T['masses'], given_symbols=T['given_symbols'], given_masses=T['given_masses'], prop_unit=pu, box_unit=box_unit))
+            key = f'types:{route}:{enc}'
+            # the system under test holds what its constructor documents (precondition of the round trip)
+            judge_content(rec, system, T, 'types:precondition:' + T['source'], 'the system built holds the declared content')
+            s2 = text = None
+            sub = None
+            variant = (i // 144) % 4
+            with ctx.guard('System model round trip (declared types)', key):
+                if route in ('model', 'sub-objects'):
+                    m = system.model(box_unit=box_unit, **kw)
+                    _, payload, text = through(DM, m, enc)
+                    s2 = am.System(model=payload)
+                    if route == 'sub-objects':
+                        # the parts of the system model are themselves Box / Atoms models
+                        sub = (am.Box(model=payload), am.Atoms(model=payload))
+                elif route == 'dump-return':
+                    if enc == 'dm':
+                        payload = system.dump('system_model', box_unit=box_unit, **kw)
+                    else:
+                        fmt = [enc, enc.upper(), enc.capitalize(), enc][variant]
+                        indent = [None, 2, 0, 4][(i // 3) % 4]
+                        rec.count('types:indent' if indent is not None else 'types:no-indent')
+                        rec.count('types:format-case' if fmt != enc else 'types:format-lower')
+                        payload = text = system.dump('system_model', format=fmt, indent=indent, box_unit=box_unit, **kw)
+                    s2 = am.load('system_model', payload)
+                elif route == 'dump-path':
+                    e2 = enc if enc != 'dm' else ('json', 'xml')[(i // 3) % 2]
+                    if enc == 'dm':
+                        # the extension says nothing: the format argument decides
+                        path = os.path.join(tmpdir, f't{i}' + ['.dat', '', '.txt', '.model'][variant])
+                        if variant % 2 == 0:
+                            system.dump('system_model', f=path, format=e2, box_unit=box_unit, **kw)
+                            rec.count('types:path-format-given')
+                        else:
+                            # "If format is not given and cannot be inferred, then it will be set to 'json'" (dump docstring)
+                            e2 = 'json'
+                            system.dump('system_model', f=path, box_unit=box_unit, **kw)
+                            rec.count('types:path-format-not-inferable')
+                            if os.path.getsize(path) == 0:
+                                rec.fail('dump to a path whose extension names no format writes JSON (documented default)',
+                                         'types:dump-path:format-not-inferable', extension=os.path.splitext(path)[1])
+                                os.remove(path)
+                                continue
+                    else:
+                        path = os.path.join(tmpdir, f't{i}.' + [e2, e2.upper(), e2.capitalize(), e2][variant])
+                        system.dump('system_model', f=path, indent=[None, 2][(i // 3) % 2], box_unit=box_unit, **kw)
+                        rec.count('types:path-extension')
+                    text = open(path).read()
+                    s2 = am.load('system_model', path)
+                    os.remove(path)
+                    enc_written = e2
+                elif route == 'dump-fileobj':
+                    buf = io.StringIO()
+                    if enc == 'dm':
+                        system.dump('system_model', f=buf, box_unit=box_unit, **kw)      # no format, nothing to infer it from: JSON (documented)
+                        rec.count('types:fileobj-default-format')
+                    else:
+                        system.dump('system_model', f=buf, format=enc, indent=[None, 2][(i // 3) % 2], box_unit=box_unit, **kw)
+                    text = buf.getvalue()
+                    s2 = am.load('system_model', io.BytesIO(text.encode()))
+                else:
+                    # the system model sits inside a larger record next to another system; key and index select it
+                    decoy = am.System(atoms=am.Atoms(atype=[1, 2], pos=rng.uniform(0, 1, (2, 3))), box=am.Box(), symbols=['He', 'Ne', 'Ar', 'Kr'],
+                                      masses=[4.0, None, 39.9, None])
+                    mine = system.model(box_unit=box_unit, **kw)['atomic-system']
+                    other = decoy.model()['atomic-system']
+                    index = (i // 3) % 2
+                    rkey = ['atomic-system', 'relaxed-system'][(i // 6) % 2]
+                    doc = DM([('record', DM([('id', 'case'), (rkey, [other, mine] if index else [mine, other]), ('note', 'kept')]))])
+                    payload = doc if enc == 'dm' else doc.json() if enc == 'json' else doc.xml()
+                    text = None if enc == 'dm' else payload
+                    s2 = am.load('system_model', payload, key=rkey, index=index)
+                    rec.count('types:record-index')
+            if s2 is None:
+                continue
+            rec.count('monitor:types-roundtrip')
+            rec.count('types:class:' + T['typeclass'])
+            rec.count('types:source:' + T['source'])
+            rec.count('types:posform:' + T['posform'])
+            if T['trailing'] > 0:
+                rec.count('types:trailing-unpopulated')
+                if any(m_ is not None for m_ in T['masses'][T['natypes'] - T['trailing']:]):
+                    rec.count('types:trailing-with-mass')
+                if T['symbols'][-1] is None:
+                    rec.count('types:trailing-unnamed')
+            if len(T['populated']) < T['natypes'] - T['trailing']:
+                rec.count('types:middle-unpopulated')
+            if len(set(s_ for s_ in T['symbols'] if s_ is not None)) < sum(s_ is not None for s_ in T['symbols']):
+                rec.count('types:duplicate-symbols')
+            if T['massclass'] == 'tiny-huge':
+                rec.count('types:mass-magnitudes')
+            judge_typed(rec, s2, T, key, carried, pu, 'System round trip (declared types)')
+            if sub is not None:
+                b2, a2 = sub
+                span = T['L'] + np.abs(T['origin']).max()
+                rec.close(64 * EPS * span, b2.vects, T['vects'], 'the box part of a system model is a Box model', 'types:sub-box:vects')
+                rec.close(64 * EPS * span, b2.origin, T['origin'], 'the box part of a system model is a Box model', 'types:sub-box:origin')
+                rec.check(a2.natoms == T['natoms'] and list(a2.prop()) == carried, 'the atoms part of a system model is an Atoms model',
+                          'types:sub-atoms:names', got=a2.prop())
+                same(rec, a2.atype, T['atype'], 'the atoms part of a system model is an Atoms model', 'types:sub-atoms:atype', rtol=0.0)
+                rec.count('monitor:types-sub-objects')
+            # independent text observer: one symbol entry per declared type, in order; masses likewise when any is given
+            if text is not None and (enc == 'json' or (route == 'dump-path' and enc == 'dm' and enc_written == 'json')
+                                     or (route == 'dump-fileobj' and enc == 'dm')) and route != 'record-index':
+                d = None
+                try:
+                    d = json.loads(text)['atomic-system']
+                except ValueError:
+                    rec.fail('the text written is JSON when JSON was requested or is the documented default', 'types:text-encoding', head=text[:40])
+                if d is not None:
+                    ts = d.get('atom-type-symbol', [])
+                    ts = ts if isinstance(ts, list) else [ts]
+                    rec.check(tuple(ts) == tuple(T['symbols']), 'the text lists one symbol per declared atom type', 'types:text-symbols',
+                              got=ts, expected=T['symbols'], typeclass=T['typeclass'])
+                    if any(m_ is not None for m_ in T['masses']):
+                        tm = d.get('atom-type-mass', [])
+                        tm = tm if isinstance(tm, list) else [tm]
+                        rec.check(masses_equal(tuple(tm), tuple(T['masses'])), 'the text lists one mass per declared atom type', 'types:text-masses',
+                                  got=tm, expected=T['masses'], typeclass=T['typeclass'])
+                    rec.count('monitor:types-text')
+            elif text is not None and enc == 'xml' and route != 'record-index':
+                rec.check(text.lstrip().startswith('<'), 'the text written is XML when XML was requested', 'types:text-encoding', head=text[:40])
+                rec.check(text.count('<atom-type-symbol') == T['natypes'], 'the text lists one symbol per declared atom type', 'types:text-symbols:xml',
+                          got=text.count('<atom-type-symbol'), expected=T['natypes'])
+                rec.count('monitor:types-text')
+    finally:
+        import shutil
+        shutil.rmtree(tmpdir, ignore_errors=True)
+    for name, mn in [('monitor:types-roundtrip', 250), ('monitor:types-text', 60), ('monitor:types-sub-objects', 20), ('types:trailing-unpopulated', 100),
+                     ('types:trailing-with-mass', 20), ('types:trailing-unnamed', 20), ('types:middle-unpopulated', 15), ('types:duplicate-symbols', 15),
+                     ('types:mass-magnitudes', 20), ('types:indent', 10), ('types:format-case', 5), ('types:path-extension', 10),
+                     ('types:path-format-given', 5), ('types:path-format-not-inferable', 5), ('types:fileobj-default-format', 5), ('types:record-index', 20)] \
+            + [('types:class:' + c, 20) for c in S.TYPECLASSES] + [('types:source:' + c, 30) for c in SOURCES] \
+            + [('types:posform:' + c, 30) for c in POSFORMS]:
+        rec.floor(name, mn)
+
+
+# ------------------------------------------------------------------ round 4: call histories (state kept between calls, aliasing)
+def zero_numbers(node):
+    """Overwrite, in place, every number held in a model tree (lists are edited, not replaced)."""
+    if isinstance(node, dict):
+        for k in list(node.keys()):
+            v = node[k]
+            if isinstance(v, (dict, list)):
+                zero_numbers(v)
+            elif isinstance(v, (int, float)) and not isinstance(v, bool) and k not in ('natoms', 'shape'):
+                node[k] = 0
+    elif isinstance(node, list):
+        for j, v in enumerate(node):
+            if isinstance(v, (dict, list)):
+                zero_numbers(v)
+            elif isinstance(v, (int, float)) and not isinstance(v, bool):
+                node[j] = 0
+
+
+def state_equal(a, b):
+    """Exact equality of two snapshots (dicts of arrays / tuples)."""
+    if a.keys() != b.keys():
+        return False
+    for k in a:
+        x, y = a[k], b[k]
+        if isinstance(x, np.ndarray) or isinstance(y, np.ndarray):
+            x, y = np.asarray(x), np.asarray(y)
+            if x.shape != y.shape or x.dtype.kind != y.dtype.kind or not np.array_equal(x, y):
+                return False
+        elif x != y:
+            return False
+    return True
+
+
+class ValueEntry:
+    """uc.model / uc.value_unit / uc.error_unit on a bare value."""
+    name = 'value'
+
+    def __init__(self, am, uc, DM):
+        self.am, self.uc, self.DM = am, uc, DM
+
+    def make(self, rng, j, which):
+        shape = [(3,), (2, 3), (2, 3, 3), (4,)][(j + (which == 'B')) % 4] if which != 'same' else None
+        v = rng.normal(size=shape) * 10.0 ** int(rng.integers(-3, 4))
+        return dict(v=v, err=np.abs(v) * 0.05), dict(v=v.copy(), err=np.abs(v) * 0.05)
+
+    def kwargs(self, rng, j):
+        return dict(units=['GPa', 'eV/angstrom^3', None, 'nm'][j % 4], with_error=bool(j % 2))
+
+    def write(self, obj, kw):
+        m = self.uc.model(obj['v'], kw.get('units'), obj['err'] if kw.get('with_error') else None)
+        return self.DM([('q', m)])
+
+    def read(self, payload, kw=None):
+        node = self.DM(payload)['q']
+        out = dict(v=self.uc.value_unit(node))
+        if 'error' in node:
+            out['err'] = self.uc.error_unit(node)
+        return out
+
+    def reset(self, existing, payload):
+        return None
+
+    def state(self, r):
+        return {k: np.array(v, copy=True) for k, v in r.items()}
+
+    def touch(self, r):
+        for v in r.values():
+            if isinstance(v, np.ndarray) and v.ndim:
+                v[...] = -7.0
+
+    def edit(self, obj, rng):
+        obj['v'][...] = rng.normal(size=obj['v'].shape)
+        obj['err'][...] = np.abs(obj['v']) * 0.02
+        return dict(v=obj['v'].copy(), err=obj['err'].copy())
+
+    def rebuild(self, truth):
+        return dict(v=truth['v'].copy(), err=truth['err'].copy())
+
+    def default(self, rng):
+        v = rng.normal(size=(2, 2))
+        return dict(v=v, err=None), dict(v=v.copy()), {}
+
+    def judge(self, rec, r, truth, kw, key, what):
+        same(rec, r['v'], truth['v'], what + ': value', key + ':value', rtol=8 * EPS)
+        if kw.get('with_error'):
+            if rec.check('err' in r, what + ': error entry present', key + ':error-missing'):
+                same(rec, r['err'], truth['err'], what + ': error', key + ':error', rtol=8 * EPS)
+        else:
+            rec.check('err' not in r, what + ': no error entry when none was given', key + ':error-stale')
+
+
+class BoxEntry:
+    name = 'box'
+
+    def __init__(self, am, uc, DM):
+        self.am, self.uc, self.DM = am, uc, DM
+
+    def _cell(self, rng, j):
+        c = cells.gen_cell(rng, cells.KINDS[j % len(cells.KINDS)], cells.ORIGINS[(j // 2) % 3], 1.0)
+        return dict(vects=c['vects'].copy(), origin=c['origin'].copy())
+
+    def make(self, rng, j, which):
+        t = self._cell(rng, j + (which == 'B'))
+        return self.am.Box(vects=t['vects'], origin=t['origin']), t
+
+    def kwargs(self, rng, j):
+        return dict(length_unit=['nm', 'angstrom', 'm', 'pm'][j % 4])
+
+    def write(self, obj, kw):
+        return obj.model(**kw)
+
+    def read(self, payload, kw=None):
+        return self.am.Box(model=payload)
+
+    def reset(self, existing, payload):
+        existing.model(model=payload)               # an existing box takes the content of the model
+        return existing
+
+    def state(self, r):
+        return dict(vects=np.array(r.vects, copy=True), origin=np.array(r.origin, copy=True))
+
+    def touch(self, r):
+        v, o = r.vects, r.origin                    # whatever is handed out is overwritten
+        v[...] = -7.0
+        o[...] = -7.0
+
+    def edit(self, obj, rng):
+        t = self._cell(rng, int(rng.integers(0, 9)))
+        if rng.random() < 0.5:
+            obj.set(vects=t['vects'], origin=t['origin'])
+        else:
+            obj.vects = t['vects']
+            obj.origin = t['origin']
+        return t
+
+    def rebuild(self, truth):
+        return self.am.Box(vects=truth['vects'], origin=truth['origin'])
+
+    def default(self, rng):
+        return self.am.Box(), dict(vects=np.eye(3), origin=np.zeros(3)), {}
+
+    def judge(self, rec, r, truth, kw, key, what):
+        span = np.abs(truth['vects']).max() + np.abs(truth['origin']).max()
+        rec.close(64 * EPS * span, r.vects, truth['vects'], what + ': cell vectors', key + ':vects')
+        rec.close(64 * EPS * span, r.origin, truth['origin'], what + ': origin', key + ':origin')
+
+
+class AtomsEntry:
+    name = 'atoms'
+
+    def __init__(self, am, uc, DM):
+        self.am, self.uc, self.DM = am, uc, DM
+
+    def _truth(self, rng, natoms, names):
+        t = dict(atype=rng.integers(1, 4, natoms), pos=rng.normal(size=(natoms, 3)) * 5)
+        for nm in names:
+            t[nm] = {'charge': lambda: rng.normal(size=natoms), 'vel': lambda: rng.normal(size=(natoms, 3)),
+                     'stress': lambda: rng.normal(size=(natoms, 3, 3)), 'ival': lambda: rng.integers(-9, 9, natoms),
+                     'tag': lambda: np.array([f'{c}w' for c in rng.choice(list('abcdef'), natoms)])}.get(nm, lambda: rng.normal(size=natoms))()
+        return t
+
+    def make(self, rng, j, which):
+        if which == 'B':
+            t = self._truth(rng, [2, 5, 1][j % 3], ['charge', 'vel', 'stress', 'other'])      # other sizes, one more property
+        else:
+            t = self._truth(rng, [3, 4, 6][j % 3], ['charge', 'vel', 'stress'] + [['ival'], ['tag'], []][j % 3])
+        return self.rebuild(t), t
+
+    def kwargs(self, rng, j):
+        pu = {'atype': None, 'pos': ['nm', None, 'angstrom'][j % 3], 'charge': ['C', 'e'][j % 2], 'stress': ['GPa', 'eV/angstrom^3', None][(j // 2) % 3], 'vel': None}
+        return dict(prop_unit=pu) if j % 2 else dict(prop_name=list(pu), unit=list(pu.values()))
+
+    def carried(self, obj, kw):
+        return list(kw['prop_unit']) if 'prop_unit' in kw else list(kw['prop_name']) if 'prop_name' in kw else list(obj.prop())
+
+    def write(self, obj, kw):
+        return obj.model(**kw)
+
+    def read(self, payload, kw=None):
+        return self.am.Atoms(model=payload)
+
+    def reset(self, existing, payload):
+        return None
+
+    def state(self, r):
+        return {p: np.array(r.view[p], copy=True) for p in r.prop()}
+
+    def touch(self, r):
+        for p in r.prop():
+            if r.view[p].dtype.kind == 'f':
+                r.view[p][...] = -7.0
+
+    def edit(self, obj, rng):
+        t = self._truth(rng, obj.natoms, [p for p in obj.prop() if p not in ('atype', 'pos')])
+        for p, v in t.items():
+            obj.view[p][...] = v                        # same arrays, new numbers
+        return t
+
+    def rebuild(self, truth):
+        return self.am.Atoms(**{k: np.array(v, copy=True) for k, v in truth.items()})
+
+    def default(self, rng):
+        return self.am.Atoms(), dict(atype=np.array([1]), pos=np.zeros((1, 3))), {}
+
+    def judge(self, rec, r, truth, kw, key, what):
+        names = list(kw['prop_unit']) if 'prop_unit' in kw else list(kw['prop_name']) if 'prop_name' in kw else list(truth)
+        rec.check(list(r.prop()) == names, what + ': exactly the carried properties, in order', key + ':propnames', got=r.prop(), expected=names)
+        for p in names:
+            if p in r.prop() and p in truth:
+                same(rec, r.view[p], truth[p], what + f': property {p}', key + f':prop:{p}', rtol=8 * EPS)
+
+
+class SystemEntry(AtomsEntry):
+    name = 'system'
+
+    def _truth(self, rng, natoms, names, j=0):
+        t = AtomsEntry._truth(self, rng, natoms, names)
+        c = cells.gen_cell(rng, cells.KINDS[int(rng.integers(0, len(cells.KINDS)))], cells.ORIGINS[j % 3], 1.0)
+        t['pos'] = rng.uniform(-0.2, 1.2, (natoms, 3)) @ c['vects'] + c['origin']
+        nat = int(t['atype'].max()) + int(rng.integers(0, 3))             # up to two declared types without atoms
+        sym = [str(x) for x in rng.permutation(['Al', 'Cu', 'Fe', 'Ni', 'Mg', 'Ti'])[:nat]]
+        if rng.random() < 0.3:
+            sym[int(rng.integers(0, nat))] = None
+        mas = [float(x) if rng.random() < 0.7 else None for x in rng.uniform(1, 200, nat)]
+        t['_sys'] = dict(vects=c['vects'].copy(), origin=c['origin'].copy(), pbc=tuple(bool(x) for x in rng.random(3) < 0.5),
+                         symbols=tuple(sym), masses=tuple(mas))
+        return t
+
+    def make(self, rng, j, which):
+        if which == 'B':
+            t = self._truth(rng, [2, 5, 1][j % 3], ['charge', 'vel', 'stress', 'other'], j + 1)
+        else:
+            t = self._truth(rng, [3, 4, 6][j % 3], ['charge', 'vel', 'stress'] + [['ival'], ['tag'], []][j % 3], j)
+        return self.rebuild(t), t
+
+    def kwargs(self, rng, j):
+        pu = {'atype': None, 'pos': ['scaled', 'nm', None][j % 3], 'charge': ['C', 'e'][j % 2], 'stress': ['GPa', None][(j // 2) % 2],
+              'vel': ['scaled', None][(j // 3) % 2]}
+        kw = dict(prop_unit=pu) if j % 2 else dict(prop_name=list(pu), unit=list(pu.values()))
+        kw['box_unit'] = ['nm', None, 'm'][(j // 2) % 3]
+        return kw
+
+    def write(self, obj, kw):
+        return obj.dump('system_model', **kw) if len(kw) % 2 else obj.model(**kw)
+
+    def read(self, payload, kw=None):
+        return self.am.System(model=payload) if kw is None or 'prop_unit' in kw else self.am.load('system_model', payload)
+
+    def state(self, r):
+        d = {p: np.array(r.atoms.view[p], copy=True) for p in r.atoms.prop()}
+        d.update(_vects=np.array(r.box.vects, copy=True), _origin=np.array(r.box.origin, copy=True), _pbc=tuple(bool(x) for x in r.pbc),
+                 _symbols=tuple(r.symbols), _masses=tuple(r.masses))
+        return d
+
+    def touch(self, r):
+        for p in r.atoms.prop():
+            if r.atoms.view[p].dtype.kind == 'f':
+                r.atoms.view[p][...] = -7.0
+        r.box.vects[...] = -7.0
+        r.pbc[...] = ~r.pbc
+
+    def edit(self, obj, rng):
+        names = [p for p in obj.atoms.prop() if p not in ('atype', 'pos')]
+        t = self._truth(rng, obj.natoms, names, int(rng.integers(0, 3)))
+        S = t['_sys']
+        # keep the declared types consistent with what the object can hold: symbols first, then masses
+        obj.box_set(vects=S['vects'], origin=S['origin'])               # the same Box object takes a new cell
+        for p in ['atype', 'pos'] + names:
+            obj.atoms.view[p][...] = t[p]
+        obj.pbc = S['pbc']
+        obj.masses = [None] * 0
+        obj.symbols = S['symbols']
+        obj.masses = S['masses']
+        return t
+
+    def rebuild(self, truth):
+        S = truth['_sys']
+        atoms = self.am.Atoms(**{k: np.array(v, copy=True) for k, v in truth.items() if k != '_sys'})
+        return self.am.System(atoms=atoms, box=self.am.Box(vects=S['vects'], origin=S['origin']), pbc=S['pbc'], symbols=S['symbols'], masses=S['masses'])
+
+    def default(self, rng):
+        t = dict(atype=np.array([1]), pos=np.zeros((1, 3)), _sys=dict(vects=np.eye(3), origin=np.zeros(3), pbc=(True, True, True), symbols=(None,), masses=(None,)))
+        return self.am.System(), t, {}
+
+    def judge(self, rec, r, truth, kw, key, what):
+        S = truth['_sys']
+        names = list(kw['prop_unit']) if 'prop_unit' in kw else list(kw['prop_name']) if 'prop_name' in kw else [k for k in truth if k != '_sys']
+        rec.check(list(r.atoms.prop()) == names, what + ': exactly the carried properties, in order', key + ':propnames', got=r.atoms.prop(), expected=names)
+        span = np.abs(S['vects']).max() + np.abs(S['origin']).max()
+        cond = float(np.linalg.cond(S['vects']))
+        pu = kw.get('prop_unit') or dict(zip(kw.get('prop_name', []), kw.get('unit', [])))
+        rec.close(64 * EPS * span, r.box.vects, S['vects'], what + ': cell vectors', key + ':vects')
+        rec.close(64 * EPS * span, r.box.origin, S['origin'], what + ': origin', key + ':origin')
+        rec.check(tuple(bool(x) for x in r.pbc) == S['pbc'], what + ': periodic flags', key + ':pbc', got=r.pbc, expected=S['pbc'])
+        rec.check(tuple(r.symbols) == S['symbols'], what + ': symbols', key + ':symbols', got=r.symbols, expected=S['symbols'])
+        rec.check(masses_equal(tuple(r.masses), S['masses']), what + ': masses', key + ':masses', got=tuple(r.masses), expected=S['masses'])
+        rec.check(r.natypes == len(S['symbols']), what + ': number of atom types', key + ':natypes', got=r.natypes, expected=len(S['symbols']))
+        for p in names:
+            if p in r.atoms.prop() and p in truth:
+                if pu.get(p) == 'scaled':
+                    rec.close(64 * EPS * span * cond, r.atoms.view[p], truth[p], what + f': box-scaled property {p}', key + f':prop:{p}:scaled')
+                else:
+                    same(rec, r.atoms.view[p], truth[p], what + f': property {p}', key + f':prop:{p}', rtol=8 * EPS)
+
+
+class ElasticEntry:
+    name = 'elastic'
+
+    def __init__(self, am, uc, DM):
+        self.am, self.uc, self.DM = am, uc, DM
+
+    def make(self, rng, j, which):
+        cs = ['triclinic', 'cubic', 'hexagonal', 'orthorhombic'][(j + (which == 'B')) % 4]
+        c = self.uc.set_in_units(spd6(rng) * 40 if cs == 'triclinic' else system_cij(rng, cs), 'GPa')
+        if cs == 'triclinic' and (j // 2) % 2 == 0:
+            c[0, 5] = c[5, 0] = 4e-9 * c.max()       # small, but above the 1e-9 (relative) below which the class zeroes terms
+        given = [c.copy(), c.tolist(), np.asfortranarray(c), tuple(map(tuple, c))][(j // 4) % 4]      # array, nested list, other layout, tuples
+        return self.am.ElasticConstants(Cij=given), dict(Cij=c.copy(), cs=cs)
+
+    def kwargs(self, rng, j):
+        return dict(unit=['GPa', None, 'eV/angstrom^3', 'MPa'][j % 4])
+
+    def write(self, obj, kw):
+        return obj.model(**kw)
+
+    def read(self, payload, kw=None):
+        return self.am.ElasticConstants(model=payload)
+
+    def reset(self, existing, payload):
+        existing.model(model=payload)
+        return existing
+
+    def state(self, r):
+        return dict(Cij=np.array(r.Cij, copy=True))
+
+    def touch(self, r):
+        r.Cij[...] = -7.0
+
+    def edit(self, obj, rng):
+        c = self.uc.set_in_units(spd6(rng) * 25, 'GPa')
+        obj.Cij = c.copy()
+        return dict(Cij=c, cs='triclinic')
+
+    def rebuild(self, truth):
+        return self.am.ElasticConstants(Cij=truth['Cij'].copy())
+
+    def default(self, rng):
+        c = self.uc.set_in_units(system_cij(rng, 'cubic'), 'GPa')
+        return self.am.ElasticConstants(C11=c[0, 0], C12=c[0, 1], C44=c[3, 3]), dict(Cij=c, cs='cubic'), {}
+
+    def judge(self, rec, r, truth, kw, key, what):
+        c = truth['Cij']
+        big = np.abs(c) > 2e-9 * np.abs(c).max()          # the class zeroes terms below 1e-9 of the largest: exempt, counted
+        got = np.asarray(r.Cij)
+        rec.count('history:elastic:exempt-near-zero-terms', int((~big & (c != 0)).sum()))
+        rec.count('history:elastic:small-term-above-threshold', int((big & (np.abs(c) < 1e-8 * np.abs(c).max())).sum()))
+        if rec.check(got.shape == (6, 6), what + ': shape', key + ':shape'):
+            rec.close(64 * EPS * np.abs(c).max(), got[big], c[big], what + ': Cij', key + ':Cij')
+
+
+HISTS = ['same-object-edited', 'other-instance', 'default-after-custom', 'reset-existing']
+
+
+def run_history(ctx, am, uc, DM):
+    """What one call leaves behind must not reach the next: write/read A and keep everything; write/read B (the same object after
+    in-place edits, another instance with the same argument objects, a default-constructed instance, an existing object set a
+    second time); then judge B against its own ground truth and re-judge everything kept from A."""
+    rec = ctx.rec
+    entries = [c(am, uc, DM) for c in (ValueEntry, BoxEntry, AtomsEntry, SystemEntry, ElasticEntry)]
+    n = ctx.pick(240, 4800)
+    tmpdir = tempfile.mkdtemp(prefix='vf-c10h-')
+    for i in ctx.cases('history', n):
+        rng = ctx.rng
+        E = entries[i % 5]
+        enc = ENCS[(i // 5) % 3]
+        hist = HISTS[(i // 15) % 4]
+        j = i // 60 + (i // 5)
+        key = f'history:{E.name}'
+        rec.case(('history', E.name, enc, hist, j % 12), nontrivial=True, fp=fingerprint(E.name, enc, hist, i, ctx.seed))
+
+        via = 'object' if enc == 'dm' else ['text', 'path', 'fileobj'][(i // 20) % 3]
+
+        def pay(m, tag):
+            # a factory, because a file object can be read only once
+            if enc == 'dm':
+                return lambda: m
+            text = m.json() if enc == 'json' else m.xml()
+            if via == 'text':
+                return lambda: text
+            if via == 'fileobj':
+                return lambda: io.BytesIO(text.encode())
+            path = os.path.join(tmpdir, f'h{i}{tag}.{enc}')
+            with open(path, 'w') as fh:
+                fh.write(text)
+            return lambda: path
+        done = False
+        with ctx.guard('a sequence of model writes and reads', key + ':' + hist):
+            A, tA = E.make(rng, j, 'A')
+            kw = E.kwargs(rng, j)
+            kw0 = {k: (dict(v) if isinstance(v, dict) else list(v) if isinstance(v, list) else v) for k, v in kw.items()}
+            mA = E.write(A, kw)
+            textA = mA.json()
+            pA = pay(mA, 'a')
+            rA = E.read(pA(), kw)
+            E.judge(rec, rA, tA, kw0, key + ':first', f'{E.name} history, first round trip')
+            keptA = E.state(rA)
+            # ---- second call
+            if hist == 'same-object-edited':
+                tB = E.edit(A, rng)                      # the very same object(s), new numbers; the same argument objects
+                B, kwB = A, kw
+            elif hist == 'other-instance':
+                B, tB = E.make(rng, j, 'B')
+                kwB = kw                                 # the caller's lists / dicts are used again as they are now
+            elif hist == 'default-after-custom':
+                B, tB, kwB = E.default(rng)
+            else:
+                B, tB = E.make(rng, j + 1, 'A')
+                kwB = E.kwargs(rng, j + 1)
+            kwB0 = {k: (dict(v) if isinstance(v, dict) else list(v) if isinstance(v, list) else v) for k, v in kwB.items()}
+            if hist != 'default-after-custom':
+                # what the unit table says for B is what it says at the time of the call (pos: None means angstrom, documented)
+                pass
+            mB = E.write(B, kwB)
+            pB = pay(mB, 'b')
+            if hist == 'reset-existing':
+                target = E.read(pA(), kw)                # an object that already holds A ...
+                rB = E.reset(target, pB())               # ... takes B's model
+                if rB is None:
+                    rB = E.read(pB(), kwB)
+                else:
+                    rec.count('history:reset-existing-object')
+            else:
+                rB = E.read(pB(), kwB)
+            E.judge(rec, rB, tB, kwB0, key + ':second:' + hist, f'{E.name} history, second round trip ({hist})')
+            # ---- everything kept from A is still A
+            rec.check(mA.json() == textA, 'a model handed out earlier is not changed by later calls or by editing its source', key + ':kept-model:' + hist)
+            rec.check(state_equal(E.state(rA), keptA), 'an object read earlier is not changed by later calls', key + ':kept-result:' + hist)
+            # ---- the same call with equal arguments gives the same model, whatever happened in between
+            A2 = E.rebuild(tA)
+            kw2 = {k: (dict(v) if isinstance(v, dict) else list(v) if isinstance(v, list) else v) for k, v in kw0.items()}
+            rec.check(E.write(A2, kw2).json() == textA, 'the same call with equal arguments gives the same model again', key + ':repeat:' + hist)
+            r3 = E.read(pA(), kw)
+            rec.check(state_equal(E.state(r3), keptA), 'reading the same model again gives the same object', key + ':reread:' + hist)
+            # ---- results do not alias the model, in either direction
+            E.touch(r3)
+            r4 = E.read(pA(), kw)
+            rec.check(state_equal(E.state(r4), keptA), 'overwriting what was read does not change the model it was read from', key + ':result-aliases-model')
+            if enc == 'dm':
+                zero_numbers(mA)
+                rec.check(state_equal(E.state(r4), keptA) and state_equal(E.state(rA), keptA), 'overwriting the model does not change what was read from it',
+                          key + ':model-aliases-result')
+                rec.count('history:model-overwritten')
+            done = True
+        if done:
+            rec.count('monitor:history')
+            rec.count('history:via:' + via)
+            rec.count('history:' + E.name)
+            rec.count('history:' + hist)
+    import shutil
+    shutil.rmtree(tmpdir, ignore_errors=True)
+    rec.floor('monitor:history', 200)
+    for v in ('object', 'text', 'path', 'fileobj'):
+        rec.floor('history:via:' + v, 30)
+    for e in entries:
+        rec.floor('history:' + e.name, 40)
+    for h in HISTS:
+        rec.floor('history:' + h, 50)
+    rec.floor('history:reset-existing-object', 15)
+    rec.floor('history:elastic:small-term-above-threshold', 10)
+    rec.floor('history:model-overwritten', 60)
+
+
+# ------------------------------------------------------------------ round 4: the forms a bare value is handed over in
+VFORMS = ['list', 'tuple', 'nested-list', 'float32', 'float16', 'int8', 'uint8', 'int16', 'uint32', 'np-float64-scalar', 'np-float32-scalar',
+          'np-int-scalar', 'zero-d-array', 'python-int', 'python-bool', 'int-large', 'extreme-magnitude', 'signed-zero', 'int-with-unit', 'list-with-unit',
+          'keyword-units']
+
+
+def gen_form(rng, form):
+    """(value as handed over, reference array, takes a unit, relative rounding unit of the input's own precision)."""
+    if form in ('list', 'tuple', 'list-with-unit', 'keyword-units'):
+        a = rng.normal(size=int(rng.integers(2, 6))) * 10.0 ** int(rng.integers(-3, 4))
+        return (tuple(a.tolist()) if form == 'tuple' else a.tolist()), a, form != 'tuple', EPS
+    if form == 'nested-list':
+        a = rng.normal(size=(int(rng.integers(2, 4)), 3))
+        return a.tolist(), a, True, EPS
+    if form in ('float32', 'float16'):
+        a = (rng.normal(size=(int(rng.integers(2, 4)), 3)) * 10.0 ** int(rng.integers(-2, 3))).astype(form)
+        # a float16 value is converted in float16 arithmetic (numpy's rule for array / Python float), where e.g. eV/angstrom^3 -> bar
+        # overflows: half precision with a unit is not in the property's domain, half precision as stored numbers is
+        return a, a.astype(float), form == 'float32', float(np.finfo(form).eps)
+    if form in ('int8', 'uint8', 'int16', 'uint32'):
+        info = np.iinfo(form)
+        a = rng.integers(info.min, min(info.max, 2 ** 31), size=(int(rng.integers(2, 5)),) + ((2,) if rng.random() < 0.5 else ()), dtype=np.int64).astype(form)
+        a.flat[0] = info.max
+        a.flat[-1] = info.min
+        return a, a.astype(np.int64), False, 0.0
+    if form == 'np-float64-scalar':
+        a = np.float64(rng.normal() * 100)
+        return a, np.asarray(float(a)), True, EPS
+    if form == 'np-float32-scalar':
+        a = np.float32(rng.normal() * 100)
+        return a, np.asarray(float(a)), True, EPS32
+    if form == 'np-int-scalar':
+        a = np.int32(rng.integers(-1000, 1000))
+        return a, np.asarray(int(a)), False, 0.0
+    if form == 'zero-d-array':
+        a = np.array(rng.normal())
+        return a, a.copy(), True, EPS
+    if form == 'python-int':
+        a = int(rng.integers(-1000, 1000))
+        return a, np.asarray(a), False, 0.0
+    if form == 'python-bool':
+        a = bool(rng.random() < 0.5)
+        return a, np.asarray(a), False, 0.0
+    if form == 'int-large':
+        a = rng.integers(2 ** 53 + 1, 2 ** 62, size=3) * np.array([1, -1, 1])      # beyond the integers a double holds exactly
+        return a, a.copy(), False, 0.0
+    if form == 'extreme-magnitude':
+        a = rng.uniform(1, 10, size=4) * 10.0 ** rng.integers(-200, 200, 4) * rng.choice([-1, 1], 4)
+        return a, a.copy(), True, EPS
+    if form == 'signed-zero':
+        a = np.array([0.0, -0.0, rng.normal(), 0.0])
+        return a, a.copy(), True, EPS
+    if form == 'int-with-unit':
+        a = rng.integers(-50, 50, size=(2, 3))
+        return a, a.astype(float), True, EPS
+    raise ValueError(form)
+
+
+def run_forms(ctx, am, uc, DM):
+    rec = ctx.rec
+    n = ctx.pick(252, 5040)
+    for i in ctx.cases('forms', n):
+        rng = ctx.rng
+        form = VFORMS[i % len(VFORMS)]
+        enc = ENCS[(i // len(VFORMS)) % 3]
+        given, ref, may_unit, e = gen_form(rng, form)
+        want_unit = may_unit and ((i // (3 * len(VFORMS))) % 2 == 0 or form in ('int-with-unit', 'list-with-unit', 'keyword-units'))
+        dim = ['length', 'pressure', 'energy', 'force'][i % 4]
+        unit = U.names(dim)[int(rng.integers(0, len(U.names(dim))))] if want_unit else None
+        rec.case(('form', form, enc, 'unit' if unit else 'nounit'), nontrivial=True, fp=fingerprint(ref, form, enc, unit))
+        back = None
+        with ctx.guard('uc.model / uc.value_unit on a value handed over as ' + form, f'form:{form}:{enc}'):
+            m = uc.model(given, units=unit) if form == 'keyword-units' else uc.model(given, unit)
+            _, payload, text = through(DM, m, enc, 'q')
+            back = uc.value_unit(DM(payload)['q'])
+        if back is None:
+            continue
+        rec.count('monitor:forms')
+        rec.count('forms:' + form)
+        exp = ref.astype(float) if unit is not None else ref
+        # with a unit the value is divided and multiplied by the same factor once each, in the precision of the input
+        same(rec, back, exp, 'value handed over as ' + form + ' survives the round trip', f'form:{form}', rtol=(4 * e if unit is not None else 0.0), unit=unit, enc=enc)
+        if enc == 'json' and unit is not None:
+            stored = np.asarray(json.loads(text)['q']['value'], float).reshape(np.shape(ref))
+            rec.close(0.0, stored, U.from_default_working(ref.astype(float), dim, unit), 'numbers in the text are the value expressed in the stated unit',
+                      'form:text-numbers', rtol=U.RTOL + 4 * e, form=form, unit=unit)
+            rec.count('monitor:forms-text')
+    rec.floor('monitor:forms', 200)
+    rec.floor('monitor:forms-text', 20)
+    for f in VFORMS:
+        rec.floor('forms:' + f, 9)
+
+
 def run(ctx):
     import atomman as am
     import atomman.unitconvert as uc
@@ -663,6 +1556,10 @@ def run(ctx):
     run_atoms_system(ctx, am, uc, DM)
     run_elastic(ctx, am, uc, DM)
     run_xconfig(ctx, am, uc, DM)
+    set_config(uc, DEFAULT_CFG)
+    run_types(ctx, am, uc, DM)
+    run_history(ctx, am, uc, DM)
+    run_forms(ctx, am, uc, DM)
     rec = ctx.rec
     rec.check(abs(uc.unit['angstrom'] - 1.0) < 1e-12 and abs(uc.unit['eV'] - 1.0) < 1e-12,
               'harness: default working units restored at the end of the run', 'harness:units-restored')
